@@ -377,6 +377,50 @@ def scope_programs(pid0):
     return out
 
 
+CLASH_NAMES = ["result", "results", "value", "values", "res", "r", "r0", "r1", "step", "step_results", "sr0", "handler", "h", "joiner", "branch",
+               "branch_index", "index", "b0", "tmp", "t", "v", "it", "i", "thread_builder", "builder", "handle", "handles", "task", "fut", "future",
+               "futures", "err", "e", "ok", "out", "output", "acc", "item", "inner", "wrapper", "ew0", "args", "f", "func", "name", "thread_name",
+               "inspect", "spawn", "rs", "tb", "tokio", "join", "std", "core"]
+
+
+def clash_programs(pid0):
+    """The caller has local variables with names a macro might be tempted to use internally (`result`, `step`, `handler`,
+    `thread_builder`, ...). User closures of step 0, of a later step, inside a `>>>` wrapper, a later-step capture and the
+    handler read all of them: every user expression keeps its call-site meaning, whatever the macro calls its own bindings."""
+    out = []
+    pid = pid0
+    n = len(CLASH_NAMES)
+    prelude = " ".join("let %s = %du64;" % (nm, 1 << (k % 40)) for k, nm in enumerate(CLASH_NAMES))
+    total = sum(1 << (k % 40) for k in range(n))
+    allsum = " + ".join(CLASH_NAMES)
+    for kind in ALL:
+        asy = kind in ASYNC
+        tr = kind.startswith("try_")
+        if not asy:
+            br = ["Some(0u64) |> move |x| x + %s ~|> move |x| x + %s" % (allsum, allsum),
+                  "Some(0u64) |> >>> -> move |x: u64| x + %s <<< ~|> { let k = %s; move |x| x + k }" % (allsum, allsum)]
+            if tr:
+                h = "map => move |a, b| a + b + %s" % allsum
+                rty, exp = "Option<u64>", "Some(%du64)" % (5 * total)
+            else:
+                h = "then => move |a: Option<u64>, b: Option<u64>| a.unwrap() + b.unwrap() + %s" % allsum
+                rty, exp = "u64", "%du64" % (5 * total)
+        elif not tr:
+            br = ["futures::future::ready(0u64) |> move |x| x + %s ~|> move |x| x + %s" % (allsum, allsum),
+                  "futures::future::ready(0u64) |> move |x| x + %s ~|> { let k = %s; move |x| x + k }" % (allsum, allsum)]
+            h = "then => move |a, b| futures::future::ready(a + b + %s)" % allsum
+            rty, exp = "u64", "%du64" % (5 * total)
+        else:
+            R = "Result<u64, u8>"
+            br = ["futures::future::ok::<u64, u8>(0) |> move |q9: %s| q9.map(|x| x + %s) ~|> move |q9: %s| q9.map(|x| x + %s)" % (R, allsum, R, allsum),
+                  "futures::future::ok::<u64, u8>(0) |> move |q9: %s| q9.map(|x| x + %s) ~|> { let k = %s; move |q9: %s| q9.map(|x| x + k) }" % (R, allsum, allsum, R)]
+            h = "map => move |a, b| a + b + %s" % allsum
+            rty, exp = "Result<u64, u8>", "Ok::<u64, u8>(%d)" % (5 * total)
+        out.append((pid, kind, ", ".join(br + [h]), rty, exp, [(1, 2)], 4, "scope,clash", "", False, prelude))
+        pid += 1
+    return out
+
+
 def render(entry):
     prelude = ""
     if len(entry) == 8:
@@ -454,6 +498,9 @@ def build_corpus(tier, seed):
         pid += 1
     # (d) scope programs: caller variables named like `let`-named branches, handler at every position
     entries += scope_programs(pid)
+    pid = max(e[0] for e in entries) + 1
+    # (e) caller variables with names a macro might use internally
+    entries += clash_programs(pid)
     return entries
 
 
